@@ -23,6 +23,15 @@
    "Do invoked" of the recording action must still be the expectation for (rule, event) alone.  The guard
    is specified in specs/ActionChain.tla (mechanism M_SelectorIndependentOfOtherActions; the mutant with
    busyActionsTotal must be rejected by TLC).
+   Event kinds (every rule): every event is also judged as a CHILD event -- in-package through the real
+   processor.Spawn (SetChildKind, chain entered after the spawning action), end to end through the chain
+   [real split action, recording action with the rule] on one parent event {"zz":[events...]} -- time-out is
+   the only kind exempt from the selector (ActionChain.tla: M_OnlyTimeoutExempt, mutant rejected by TLC).
+   ts_cmp against `value: now` (DoIf part N): value_shift of -1h / 0 / +1h, update_interval 10s / 1m, event
+   times rendered relative to the moment of the replay at +-30 / 90 / 150 minutes; the documented threshold is
+   now + value_shift + [0, update_interval], events within 20 minutes of it are not judged and all events in
+   scope are >= 30 minutes away; the driver fails with an infrastructure error if the replay takes more than 8
+   minutes after rendering (mechanism M_ShiftOnce, mutant "shift applied twice" rejected by TLC).
 3. Concurrency family: for a seeded selection of rules (mostly case-insensitive string operators, plus
    trees, other leaves, match_fields rules and the README vectors) ONE checker / ActionPluginStaticInfo
    per rule is shared, as in Pipeline.newProc, by several real processors driven by concurrent
@@ -67,11 +76,17 @@ def val_of(v):
         return v["n"]
     if k == "str":
         return s_of(v["s"])
+    if k == "nowstr":               # unixtime of (the moment the events are rendered + off minutes)
+        return str(int(T_RENDER[0] + 60 * v["off"]))
     if k == "arr":
         return [val_of(x) for x in v["xs"]]
     if k == "obj":
         return {f["name"]: val_of(f["v"]) for f in v["fs"]}
     raise vlib.Infra("bad abstract value %r" % (v,))
+
+
+T_RENDER = [0.0]       # set when the cases are built; the `now` band of the spec assumes the replay ends within 8 minutes
+MAX_NOW_DRIFT_S = 8 * 60
 
 
 def enc(o):
@@ -110,9 +125,11 @@ def doif_cfg(r):
         o["format"] = "unixtime"
         o["value"] = "now" if r["now"] else rfc3339(r["value"])
         if r["shift"] != 0:
-            o["value_shift"] = "%ds" % r["shift"]
+            o["value_shift"] = ("%ds" % r["shift"]) if r["unit"] == "s" else ("%dh" % (r["shift"] // 60))
         if r["upd"] == 1:
             o["update_interval"] = "1h"
+        elif r["upd"] == 2:
+            o["update_interval"] = "1m"
     elif op == "check_type":
         o["values"] = list(r["types"])
     else:
@@ -221,6 +238,7 @@ class Rule:
 
 
 def build_cases(ctx, doif_printed, mf_printed):
+    T_RENDER[0] = time.time()
     sets = {}       # key -> list of event JSON texts
     abs_events = {}  # key -> abstract events (for record fields)
     rules = []
@@ -356,12 +374,14 @@ def compare(ctx, sets, abs_events, rules, fd, pl, e2e):
             recs.append({"kind": kind, "rule_kind": r.kind, "cfg": r.cfg, "part": r.part, "error": errs[0][:300]})
             continue
         vecs = [("pipeline.doActions", p["r1"]), ("pipeline.isMatch/permuted", p["r2"]),
-                ("pipeline.doActions/while another action is busy", p["r3"])]
+                ("pipeline.doActions/while another action is busy", p["r3"]),
+                ("pipeline.Spawn/child event", p["r4"])]
         if r.kind == "doif":
             vecs += [("fd.Check", f["r1"]), ("fd.Check/permuted", f["r2"])]
         if e is not None:
             vecs.append(("fd.SetupActions+running pipeline/Do invoked", e["r1"]))
             vecs.append(("fd.SetupActions+running pipeline/Do invoked while a later action holds a run", e["rb"]))
+            vecs.append(("fd.SetupActions+running pipeline/child event spawned by the real split action", e["rs"]))
             n_e2e += 1
         for name, v in vecs:
             if len(v) != n:
@@ -519,6 +539,8 @@ def replay(ctx):
     for k, v in enumerate(saved):
         if "cfg" not in v or "event" not in v or v.get("want") not in ("T", "F"):
             continue
+        if '"value":"now"' in v["cfg"] and '"value_shift"' in v["cfg"]:      # event times relative to the `now` of the saved run: not replayable later
+            continue
         r = Rule()
         r.id, r.kind, r.set, r.part, r.abs = len(rules), v.get("rule_kind", "doif"), "X:%d" % k, v.get("part", "replay"), None
         r.cfg, r.exp, r.model, r.dev, r.leaf = v["cfg"], [v["want"]], ["?"], [v.get("dev_class", "")], v.get("leaf", True)
@@ -547,9 +569,14 @@ def run(ctx):
         ctx.tlc_expect_ok("DoIf", "DoIf_fixed.cfg", count=False, timeout=900, deadlock=False)
     # the guard in front of the selector (processor.doActions): own busy flag, not busyActionsTotal
     ctx.tlc_expect_ok("ActionChain", "ActionChain_%s.cfg" % tier, timeout=300, deadlock=False)
-    mu = ctx.tlc("ActionChain", "ActionChain_mutant.cfg", timeout=300, deadlock=False, name="ActionChain/mutant")
-    if mu.ok or mu.violated != "SelectorDecides":
-        raise vlib.Infra("spec mutant ~M_SelectorIndependentOfOtherActions was not rejected by TLC: %s" % mu.violated)
+    for cfgname, what in (("ActionChain_mutant.cfg", "~M_SelectorIndependentOfOtherActions"),
+                          ("ActionChain_mutant_kinds.cfg", "~M_OnlyTimeoutExempt")):
+        mu = ctx.tlc("ActionChain", cfgname, timeout=300, deadlock=False, name="ActionChain/" + cfgname[12:-4])
+        if mu.ok or mu.violated != "SelectorDecides":
+            raise vlib.Infra("spec mutant %s was not rejected by TLC: %s" % (what, mu.violated))
+    mu = ctx.tlc("DoIf", "DoIf_mutant_shift.cfg", timeout=300, deadlock=False, name="DoIf/mutant_shift")
+    if mu.ok or mu.violated != "ImplRefinesDecl":
+        raise vlib.Infra("spec mutant ~M_ShiftOnce (value_shift applied twice) was not rejected by TLC: %s" % mu.violated)
     # spec mutant: the repaired defect D11 switched back on must be rejected by TLC (ImplMatchesDecl)
     mu = ctx.tlc("MatchFields", "MatchFields_mutant_d11.cfg", timeout=600, deadlock=False, name="MatchFields/mutant_d11")
     if mu.ok or mu.violated != "ImplMatchesDecl":
@@ -562,6 +589,9 @@ def run(ctx):
     fd, pl, e2e = run_harness(ctx, sets, rules)
     recs = compare(ctx, sets, abs_events, rules, fd, pl, e2e)
     recs += run_concurrent(ctx, sets, abs_events, rules)
+    if time.time() - T_RENDER[0] > MAX_NOW_DRIFT_S:
+        raise vlib.Infra("the replay took %.0fs; the `value: now` expectations (part N) assume at most %ds between "
+                         "rendering the events and the last check" % (time.time() - T_RENDER[0], MAX_NOW_DRIFT_S))
     ctx.exhaustive = True
     ctx.rule = ("case = (rule, event): %d do_if rules (every field op x value lists x case flag; regex family; length / int / "
                 "timestamp / type leaves with all six comparators; field paths; all and/or/not trees to the depth bound over a "
@@ -580,7 +610,9 @@ def run(ctx):
         ctx.sample({"cfg": r.cfg, "events": sets[r.set][:4], "expected": r.exp[:4]})
     ctx.assumptions += [
         "regexp truth is not modelled: regexps come from the family {^a, A$, a.*A, .*, ^$} whose truth is a structural predicate; Go's regexp is trusted",
-        "timestamps use format unixtime with integer seconds; 'now' is only compared with times decades in the past",
+        "timestamps use format unixtime with integer seconds; 'now' is compared with times decades in the past and, with "
+        "value_shift of whole hours, with times 30 / 90 / 150 minutes around the moment of the replay (events within 20 "
+        "minutes of the documented threshold would not be judged; the replay must end within 8 minutes of rendering)",
         "events are handed over as compact JSON, so 'length in bytes' of a container is the length of its compact encoding",
         "case-insensitive results are demanded only where lower-casing U+0130 to 'i' and keeping it distinct agree",
         "where README / doc comments are silent (length and int ops on absent/null, non-string fields under match_fields, "
